@@ -119,6 +119,42 @@ def observe_check(arg):
     return {"checked": out_files, "same_as_scan": same, "why": why, "exit": code, "unmaintainable_expected": any(m[3] > 60 for f in out_files for m in ref.get(f, []))}
 
 
+# Exclusion lists OUTSIDE the modelled pattern classes (negations re-including below an excluded directory, order
+# dependent): Selection.tla says nothing about them, but C12 is an agreement property - whatever scan analyses
+# under such a list is what check must look at. Judged by the recorded scan of the same configuration only.
+NEG_LISTS = [
+    ([("raw", "!tests/m.py")], ["gitignore"]),
+    ([("raw", "!build/m.c")], ["yml"]),
+    ([("raw", "!venv/lib/")], ["option"]),
+    ([("dir", "src"), ("raw", "!src/m.py")], ["yml", "gitignore"]),
+    ([("raw", "!src/m.py"), ("dir", "src")], ["option", "gitignore"]),
+    ([("ext", "py"), ("raw", "!m.py")], ["gitignore", "gitignore"]),
+    ([("bare", "lib"), ("raw", "!lib/m.ts")], ["yml", "gitignore"]),
+    ([("star", "src"), ("raw", "!src/lib/")], ["gitignore", "gitignore"]),
+    ([("raw", "!*.py"), ("raw", "!tests/")], ["gitignore", "yml"]),
+]
+
+
+def observe_agree(arg):
+    """One configuration: the real scan's file set, then check on every directory target."""
+    from .c11 import run_scan
+
+    depth, pats, srcs, targets = arg
+    top, root, files = world(depth)
+    opt = U.configure(root, pats, srcs)
+    try:
+        scanned = sorted(run_scan(root, root, Path("."), opt))
+    finally:
+        os.chdir("/")
+        shutil.rmtree(root / ".codelimit_cache", ignore_errors=True)
+        U.configure(root, [], [])
+    out = []
+    for tg in targets:
+        r = observe_check((depth, pats, srcs, tg))
+        out.append({"target": [tg[0], list(tg[1]), tg[2]], "checked": r["checked"], "same_as_scan": r["same_as_scan"], "why": r["why"]})
+    return {"scanned": scanned, "runs": out}
+
+
 def run(tier: str) -> int:
     b = BOUNDS[tier]
     t = Timer()
@@ -176,7 +212,28 @@ def run(tier: str) -> int:
             ev.update(exc=r[1] if r[0] == "exc" else "timeout", checked=[], same_as_scan=True)
         events.append(ev)
     log(f"[C12] G {m.distinct} (configuration, target) states enumerated; {len(chosen)} configurations x {len(tl)} targets = {len(jobs)} check runs from the codebase root, {t.s()}s")
+    # agreement under lists outside the modelled classes, and under a sample of the modelled ones
+    dir_targets = [x for x in tl if x[0] == "dir"]
+    ajobs = [(b["depth"], pl, sl, dir_targets) for pl, sl in NEG_LISTS] + [(b["depth"], list(k[0]), list(k[1]), dir_targets) for k in chosen[:6]]
+    ares = pmap(observe_agree, ajobs, timeout=1800, chunk=1)
+    n_model = len(events)
+    aowner = []
+    for aj, ar in zip(ajobs, ares):
+        if ar[0] != "ok":
+            events.append({"kind": "agree", "pats": [], "present": [], "target_kind": "dir", "target": [], "exc": ar[1] if ar[0] == "exc" else "timeout", "checked": [], "scanned": [], "same_as_scan": True})
+            aowner.append((aj, None))
+            continue
+        for run_ in ar[1]["runs"]:
+            events.append({"kind": "agree", "pats": [], "present": [], "target_kind": "dir", "target": tla_path(run_["target"][1]), "exc": "",
+                           "checked": [tla_path(x.split("/")) for x in run_["checked"]], "scanned": [tla_path(x.split("/")) for x in ar[1]["scanned"]], "same_as_scan": run_["same_as_scan"]})
+            aowner.append((aj, run_))
+    log(f"[C12] G agreement: {len(ajobs)} configurations ({len(NEG_LISTS)} with negated patterns) scanned and checked on {len(dir_targets)} directory targets each, {t.s()}s")
     rejected = accept(wd, events, b["depth"], name="c12_trace")
+    for n in [x for x in sorted(rejected) if x >= n_model]:
+        aj, run_ = aowner[n - n_model]
+        rep.fail({"clause": rejected[n], "patterns": [U.pattern_text(p) for p in aj[1]], "sources": aj[2], "target": run_["target"] if run_ else None, "site": "agreement"},
+                 {"kind": "agree", "depth": aj[0], "patterns": [list(p) for p in aj[1]], "sources": aj[2], "target": run_["target"] if run_ else None, "observed": run_})
+    rejected = {k: v for k, v in rejected.items() if k < n_model}
     for n, clause in sorted(rejected.items()):
         j, r = jobs[n], res[n]
         rep.fail({"clause": clause, "patterns": [U.pattern_text(p) for p in j[1]], "sources": j[2], "target": [j[3][0], "/".join(j[3][1]), j[3][2]]},
@@ -191,7 +248,7 @@ def run(tier: str) -> int:
             "samples": [{"patterns": [U.pattern_text(p) for p in jobs[i][1]], "sources": jobs[i][2], "target": [jobs[i][3][0], "/".join(jobs[i][3][1]), jobs[i][3][2]],
                          "checked": (res[i][1]["checked"][:5] if res[i][0] == "ok" else list(res[i]))} for i in (0, len(jobs) // 2, len(jobs) - 1)],
             "bounds": {"universe_depth": b["depth"], "universe_files": len(files), "targets": len(tl), "directory_targets": len(tdirs) * 2, "file_targets": len(tfiles), "configurations_run": len(chosen),
-                       "states_enumerated": m.distinct},
+                       "states_enumerated": m.distinct, "agreement_configurations": len(ajobs), "agreement_with_negated_patterns": len(NEG_LISTS), "agreement_runs": len(events) - n_model},
             "model": {"module": "Selection.tla (+ generated SelectionRun.tla)", "actions": m.coverage},
             "acceptor": {"module": "SelectionTrace.tla", "events": len(events), "rejected": len(rejected)},
             "model_drift": rep.drift, "known_findings_hit": sorted(rep.known),
@@ -206,6 +263,22 @@ def replay(path: str) -> int:
     case = json.loads(open(path).read())
     pats = [tuple(p) for p in case["patterns"]]
     tgt = (case["target"][0], tuple(case["target"][1]), case["target"][2])
+    if case.get("kind") == "agree":
+        r = guarded(observe_agree, (case["depth"], pats, case["sources"], [tgt]), 900)
+        print("observed:", str(r)[:1200])
+        if r[0] == "ok":
+            run_ = r[1]["runs"][0]
+            ev = {"kind": "agree", "pats": [], "present": [], "target_kind": "dir", "target": tla_path(tgt[1]), "exc": "", "checked": [tla_path(x.split("/")) for x in run_["checked"]],
+                  "scanned": [tla_path(x.split("/")) for x in r[1]["scanned"]], "same_as_scan": run_["same_as_scan"]}
+        else:
+            ev = {"kind": "agree", "pats": [], "present": [], "target_kind": "dir", "target": [], "exc": "x", "checked": [], "scanned": [], "same_as_scan": True}
+        rej = accept(workdir(PROP, "replay"), [ev], case["depth"], name="replay")
+        if rej:
+            print(f"VIOLATION property={PROP} replay={path}")
+            print("rejected clause:", rej[0])
+            return 1
+        print("accepted by SelectionTrace.tla")
+        return 0
     r = guarded(observe_check, (case["depth"], pats, case["sources"], tgt), 900)
     print("observed:", str(r)[:1200])
     dirs, files = U.universe_paths(case["depth"])
